@@ -163,7 +163,7 @@ DOWN_CFGS = [dict(to=8, **{"from": 16}), dict(to=8, **{"from": 32}), dict(to=8, 
 def tasks(tier):
     out = []
     d_up = 14 if tier == "quick" else 20
-    d_dn = 14 if tier == "quick" else 18
+    d_dn = 14 if tier == "quick" else 16
     small = dict(aw_to=3, Q=2, Qw=2, Qr=2)
     for cfg in UP_CFGS[:1] if tier == "quick" else UP_CFGS:
         base = dict(cfg, depth=d_up, **small)
